@@ -92,7 +92,9 @@ func (r Resources) ContainsBucketPattern() bool {
 // Bucket resources should start with bucket name: arn:aws:s3:::MyBucket/*
 func (r Resources) Validate(bucket string) error {
 	for resource := range r {
-		if !strings.HasPrefix(resource, bucket) {
+		// the resource has to be the bucket or something inside of
+		// it, not another bucket whose name starts the same
+		if resource != bucket && !strings.HasPrefix(resource, bucket+"/") {
 			return policyErrInvalidResource
 		}
 	}
